@@ -42,8 +42,8 @@ def tcp_histories(ctx, cfg, cid, payloads, nsess):
         nflows = rng.choice([1, 1, 2, 3, 8])
         flows = []
         for _k in range(nflows):
-            e = gen.endp(rng, cfg, rng.random() < 0.5)
-            fl = Flow(ctx, e, gen.rnd_port(rng), gen.rnd_port(rng))
+            e = gen.endp(rng, cfg, rng.random() < 0.5, own_src=0.02)
+            fl = Flow.fresh(ctx, e)
             name, pl = rng.choice(payloads)
             if rng.random() < 0.5:
                 pl = gen.mutate(rng, pl)
@@ -111,7 +111,7 @@ def shard(ctx, tier, budget_s):
             seeds = [f for _n, f in gen.l2l4_seeds(rng, cfg)]
             udp_payloads = [u for _n, u, _t in apps] + [p for _n, p in hp] + gen.UNIT_TEST_PAYLOADS
             for p in udp_payloads:
-                e = gen.endp(rng, cfg, rng.random() < 0.5)
+                e = gen.endp(rng, cfg, rng.random() < 0.5, own_src=0.02)
                 seeds.append(e.udp(gen.rnd_port(rng), gen.rnd_port(rng), p))
             hostile = [f for _n, f in gen.hostile_frames(rng, cfg)]
             rs = ctx.send_many(seeds + hostile)
@@ -153,7 +153,7 @@ def shard(ctx, tier, budget_s):
             tcp_histories(ctx, cfg, cid, tcp_payloads, per_combo_sess)
             canary(ctx, e4)
             # --- small SYN flood with every flag combination ------------------------------------------------
-            e = gen.endp(rng, cfg, rng.random() < 0.5)
+            e = gen.endp(rng, cfg, rng.random() < 0.5, own_src=0.02)
             fl = [e.tcp(gen.rnd_port(rng), gen.rnd_port(rng), rng.getrandbits(32), rng.getrandbits(32), f, b"z" * rng.choice([0, 0, 5]))
                   for f in range(512)]
             ctx.case(reset=False, record=False)
